@@ -602,7 +602,11 @@ func (m *mon) laws(path string, res int, totals [3]float64, k float64, qs []*QIn
 				}
 			}
 			for i, q := range qs {
-				if q.Prio != p || !unsat[i] || q.Res[res].Weight <= 0 {
+				if q.Prio != p || !unsat[i] {
+					continue
+				}
+				if q.Res[res].Weight <= 0 {
+					m.inc("L4_unsatisfied_with_weight_zero")
 					continue
 				}
 				in := q.Res[res]
@@ -730,7 +734,7 @@ func (check) Rule() string {
 		"1-3 distinct priorities, request (0 in 10%%, up to 0.05..2 x magnitude), usage (all 0 / {0,.25,.5} / arbitrary in [0,1]), k in {0,0.5,1,10}; half of the sets on the dyadic grid (multiples of 1/4), "+
 		"half decimals (3 digits, 1 digit, integers, full-precision floats); magnitudes >= 1e4 are integer-valued. A quarter of the sets carry a 2-3 level tree (1-4 children per parent, parent's request = sum of children's in 70%%). "+
 		"Every sibling set (top level and every child level, with the parent's GetFairShare() as total) is divided by the production resource_division.SetResourcesShare %d times "+
-		"(different map insertion orders, Go-randomised iteration) and laws L1-L8 are evaluated on the resulting FairShare values. "+
+		"(different map insertion orders, Go-randomised iteration); L1-L6 are evaluated on the FairShare values of every run, L8 compares the runs, L7 uses the first run. "+
 		"Non-trivial: a case containing a sibling set with >=3 queues, >=2 priorities and a queue left unsatisfied (FS < capped request) in some resource. Distinct = distinct hash of all generated numbers of the case.", setsPerCase, orders)
 }
 
@@ -742,7 +746,8 @@ func (check) Assumptions() []string {
 		"L5 antecedent uses the effective weight normalised over the queues of that priority left unsatisfied after the deserved step (the smallest value it takes in any round), so a queue whose weight is zeroed by k*usage does not count as 'higher priority unsatisfied'; for k=0 or usage=0 this is weight>0",
 		"L5 bound = number of queues with priority >= P (reading of 'less than one unit per higher-priority queue')",
 		"L7 is evaluated on the harness's own emulation of proportion.setFairShareForQueues (SetResourcesShare(parent.GetFairShare(), k, children)); the plugin's recursion itself is not executed here",
-		"negative quantities, NaN/Inf inputs and limits below -1 are not generated",
+		"L8 reports any difference > eps between two runs of the same set; the suffix (units)/(gross) only tags whether the largest per-queue difference is <= the number of queues (rounding-cliff sized) or larger",
+		"negative quantities, NaN/Inf inputs and limits below -1 are not generated; the stale-cache path of GetFairShare is not reachable because attributes are rebuilt for every division, as proportion does per session",
 	}
 }
 
